@@ -1,4 +1,5 @@
 import ALock.Lemmas.Sem
+import ALock.Atomic.Sem
 
 /-!
 # C03 — Semaphore: never over-issues permits and conserves them
@@ -12,7 +13,13 @@ The theorems quantify over **every** initial count and **every** finite operatio
 (`List Op`: any length, any number of futures and guards, cancellation at any point, borrowed and
 Arc flavours) of the poll-granular model `ALock.Sem`; nothing is bounded.  `usize` wrap-around of
 `count` is outside the model (`Nat`): the tie to the code holds for histories with
-`init + added < 2^64`.  The interleaving half is `ALock.SemS` (small-step model).
+`init + added < 2^64`.
+
+Part 2 (`ALock.Atomic.Sem`) proves conservation and no-over-issue for **every interleaving of the
+atomic operations** on `Semaphore::count` by any number of threads (one step = one `load`, one
+`compare_exchange_weak` — spurious failure included — or one `fetch_add`).  That model is tied to the
+code by the site table extracted from /repo's sources on every run (`C03_shape_ok`): the operations
+on the counter, with their operands, in source order, are the ones the model has steps for.
 -/
 
 set_option linter.unusedSimpArgs false
@@ -154,3 +161,45 @@ example :
     s.count = 1 ∧ s.guards.length = 1 ∧ s.forgotten = 1 ∧ s.added = 2 := by decide
 
 end ALock.Sem
+
+/-! ## Part 2 — every interleaving of the atomic operations -/
+
+namespace ALock.Atomic.Sem
+
+/-- the model's steps are the operations the code performs on `Semaphore::count` -/
+theorem C03_shape_ok : sites.map Site.shape = expectedShapes := by decide
+
+/-- **C03 (conservation under every interleaving).** For every initial count and every sequence of
+atomic steps by any number of agents — loads, (weak) CASes of racing `try_acquire`s, concurrent
+`add_permits`, guard drops and `forget`s — permits are neither lost nor invented. -/
+theorem C03_interleaved_conservation (n : Nat) (l : List Step) :
+    (run (Sys.new n) l).count + issued (run (Sys.new n) l) + (run (Sys.new n) l).forgotten
+      = n + (run (Sys.new n) l).added := by
+  have h := run_conserved (Sys.new n) l (by simp [Conserved, Sys.new, issued])
+  have hi : (run (Sys.new n) l).init = n := by
+    have : ∀ (s : Sys) (st : Step), (step s st).init = s.init := by
+      intro s st
+      cases st <;> simp only [step] <;> (repeat' split) <;> rfl
+    have hr : ∀ (l : List Step) (s : Sys), (run s l).init = s.init := by
+      intro l
+      induction l with
+      | nil => intro s; rfl
+      | cons x t ih => intro s; simp only [run, List.foldl_cons] at ih ⊢; rw [ih, this]
+    rw [hr]; rfl
+  simp only [Conserved] at h
+  omega
+
+/-- **C03 (no over-issue under every interleaving).** -/
+theorem C03_interleaved_no_overissue (n : Nat) (l : List Step) :
+    issued (run (Sys.new n) l) + (run (Sys.new n) l).forgotten ≤ n + (run (Sys.new n) l).added := by
+  have := C03_interleaved_conservation n l
+  omega
+
+/-- non-vacuity: two racing `try_acquire`s on one permit — one CAS fails, re-reads 0 and gives up —
+while a third agent adds a permit concurrently -/
+example :
+    let s := run (Sys.new 1) [.spawn, .spawn, .load 0, .load 1, .cas 0 false, .cas 1 false,
+      .add 1, .giveUp 1, .load 1, .cas 1 true, .cas 1 false, .release 0]
+    s.count = 1 ∧ s.ags.map (·.held) = [0, 1] ∧ s.added = 1 := by decide
+
+end ALock.Atomic.Sem
